@@ -140,6 +140,59 @@ class FlatBody(Family):
         return not cell.endswith('|None')
 
 
+class MovedBody(FlatBody):
+    """query, move the body in place, query again against the flat translated by the same vector
+    (the answer must be the first answer translated)."""
+
+    def __init__(self, bname, pose, params, step):
+        FlatBody.__init__(self, bname, pose, params)
+        self.name = 'moved/%s/%s' % (bname, pose.name)
+        self.flats0 = self.flats0[::step]
+        self.total = len(self.flats0)
+        self._shards = [(i, min(i + 60, len(self.flats0))) for i in range(0, len(self.flats0), 60)]
+
+    def scenes(self, shard):
+        K = self.pose(self.body0)
+        for f0 in self.flats0[shard[0]:shard[1]]:
+            yield (self.pose(f0), K)
+
+    def eval(self, scene):
+        return eval_moved(self.name, scene[0], scene[1])
+
+
+MOVE_V = ((1, 2, -1), (0, 0, 3))
+ID3 = ((1, 0, 0), (0, 1, 0), (0, 0, 1))
+
+
+def eval_moved(fam, f, K):
+    from Geometry3D import intersection as inter
+    e0, cell, skip = model_inter(f, K)
+    if skip:
+        return skip, []
+    lk = lib.to_lib(K)
+    lib.call(inter, lib.to_lib(f), lk)
+    lib.call(lambda: lk.area())
+    viols = []
+    t = (0, 0, 0)
+    for v in MOVE_V:
+        r = lib.call(lk.move, lib.V(v))
+        if isinstance(r, lib.Raised):
+            return 'moved|' + cell, [Viol('C02|moved|move-raises:' + r.cls, core.enc((f, K)), 'moved body', repr(r), '')]
+        t = X.add(t, v)
+        ft, Kt = X.xform(f, ID3, 1, t), X.xform(K, ID3, 1, t)
+        e, _, skip = model_inter(ft, Kt)
+        if skip:
+            continue
+        for who, obj in (('receiver', lk), ('returned', r)):
+            got = lib.call(inter, lib.to_lib(ft), obj)
+            ok, why = lib.matches(got, e)
+            if not ok:
+                viols.append(Viol('C02|moved|%s,%s|%s|%s-after-in-place-move' % (f[0], K[0], who, why), core.enc((f, K)), core.enc(e), lib.describe(got),
+                                  'intersection with the %s object after K.move(%r)' % (who, v)))
+                return 'moved|%s,%s' % (f[0], K[0]), viols
+    return 'moved|%s,%s' % (f[0], K[0]), viols
+
+
 def expected_hit_set(s, K):
     """isolated boundary hits of segment s: s x face (polyhedron) and s x edge when a single point."""
     pts = set()
@@ -234,7 +287,10 @@ def families(tier):
         for b in bodies:
             fams.append(FlatBody(b, pose, params))
         fams.append(PointList(pose))
-    return A.with_int_mode(fams, tier)
+    fams = A.with_int_mode(fams, tier)
+    for b in (('triangle', 'tetrahedron') if tier == 'quick' else A.QUICK_BODIES + ['square', 'pyramid']):
+        fams.append(MovedBody(b, A.P1, params, 7 if tier == 'quick' else 2))
+    return fams
 
 
 def run(tier, seed):
@@ -253,6 +309,8 @@ def replay(family, scene):
     if family.startswith('pointlist'):
         return eval_pointlist(family, sc)[1]
     a, b = sc
+    if family.startswith('moved'):
+        return eval_moved(family, a, b)[1]
     if a[0] == 'Segment' and b[0] in X.BODY and family == 'helper':
         return eval_helper(family, a, b)
     cell, viols = eval_inter('C02', family, a, b, forms=('fn',), measures=True)
